@@ -212,6 +212,24 @@ def gen_blocks(rng, fmt: str, owner: str, names: Names, raw: bool, opening: bool
         out = [pre + "- " + lines[0]] + [pre + "  " + l for l in lines[1:]]
         return {"lines": out, "constructs": cons, "kind": "item"}
 
+    def rst_extra(kind: str) -> Dict[str, Any]:
+        if kind == "vdir":          # pydoctor's versionadded / versionchanged / deprecated with a reference in the argument
+            nm = names.new()
+            lines = [".. %s:: %d.%d %s `%s`" % (rng.choice(["versionadded", "versionchanged", "deprecated"]), rng.randint(0, 3), rng.randint(0, 9),
+                                                  rng.choice(WORDS), nm)]
+            if rng.random() < 0.6:
+                lines += [""] + ["   " + sentence(rng, raw) for _ in range(rng.randint(1, 2))]
+                if rng.random() < 0.3:
+                    lines += ["", "   " + sentence(rng, raw)]
+            return {"lines": lines, "constructs": [("V", len(lines) - 1, nm)], "kind": "vdir"}
+        if kind == "title":         # section title with a reference
+            nm = names.new()
+            t = "%s about `%s`" % (rng.choice(WORDS).capitalize(), nm)
+            return {"lines": [t, "=" * (len(t) + rng.randint(0, 2))], "constructs": [("S", 0, nm)], "kind": "title"}
+        # a paragraph holding characters at which str.splitlines() (docutils) breaks lines and Python does not
+        ch = [rng.choice(["\u2028", "\u2029", "\x85", "\x1c", "\x1d", "\x1e"]) for _ in range(rng.randint(1, 2))]
+        return {"lines": ["Records%sfields%s." % (ch[0], ch[1] + "chars" if len(ch) > 1 else "")], "constructs": [], "kind": "uline"}
+
     for b in range(nbody):
         # epytext lists must be indented relative to the paragraph before them; with text on the opening line
         # cleandoc() computes the margin from the other lines only and would remove that indentation
@@ -219,6 +237,12 @@ def gen_blocks(rng, fmt: str, owner: str, names: Names, raw: bool, opening: bool
             blocks.append(para(b == 0))
         else:
             blocks.append(item())
+    if fmt == "r" and not names.ptypes:
+        extras = [k for k, p in (("vdir", 0.12), ("title", 0.12), ("uline", 0.08)) if rng.random() < p]
+        if "vdir" in extras and "uline" in extras:
+            extras.remove("uline")
+        for k in extras:
+            blocks.insert(rng.randint(1, len(blocks)), rst_extra(k))
     if fmt in "er":
         at, colon = ("@", ":") if fmt == "e" else (":", ":")
         for _ in range(rng.choice([0, 1, 1, 2, 3])):
@@ -575,7 +599,7 @@ def run_many(jobs: List[Tuple[Any, str, bool, List[str]]], workers: int = 14) ->
 
 # --------------------------------------------------------------------------- evaluation of one run
 
-KIND = {"B": "P", "D": "P", "T": "X"}      # planted class -> kind of the message it produces
+KIND = {"B": "P", "D": "P", "T": "X", "V": "X", "S": "X"}      # planted class -> kind of the message it produces
 
 
 def cons_of(doc: Dict[str, Any]):
@@ -586,14 +610,18 @@ def cons_of(doc: Dict[str, Any]):
 
 
 def cons_tokens(doc: Dict[str, Any]) -> str:
-    return " ".join("%s:%d:%d" % (cls, raw, j) for cls, raw, j, _ in cons_of(doc))
+    toks = ["%s:%d:%d" % (cls, raw, j) for cls, raw, j, _ in cons_of(doc)]
+    if doc.get("owner") in ("module", "class"):
+        # the sidebar's table of contents is rendered for objects with a page of their own: titles are linked again
+        toks += ["Z:%d:0" % raw for cls, raw, j, _ in cons_of(doc) if cls == "S"]
+    return " ".join(toks)
 
 
 def expected_reports(doc: Dict[str, Any], offset: int) -> List[Tuple[str, str, int, int, str]]:
     """planted truth: (message kind, name, first physical line of the paragraph / item / field, physical line of
     the construct, planted class)"""
     base = doc["str_lineno"] + offset
-    return [(KIND.get(cls, cls), nm, base + raw, base + raw + j, cls) for cls, raw, j, nm in cons_of(doc)]
+    return [(KIND.get(cls, cls), nm, base + raw, base + raw + (0 if cls == "V" else j), cls) for cls, raw, j, nm in cons_of(doc)]
 
 
 def report_entries(res: Dict[str, Any]) -> List[Dict[str, Any]]:
@@ -951,10 +979,21 @@ def oracle_er(ctx: Ctx, inp, fmt: str, doc, exp, uniq, span) -> None:
     shift = expected_shift(doc)
     where = f"{FMTS[fmt]} docstring of {doc['name']} (literal on lines {span[0]}-{span[1]})"
 
-    def signature(kind: str, delta: int) -> str:
+    vlines = doc["value"].split("\n")
+
+    def ushift(first: Optional[int]) -> int:
+        """extra str.splitlines() boundaries (docutils' line structure) before the block that starts on line `first`"""
+        if fmt != "r" or first is None:
+            return 0
+        return sum(l.count(c) for l in vlines[:first - span[0]] for c in "\x1c\x1d\x1e\x85\u2028\u2029")
+
+    def signature(kind: str, delta: int, first: Optional[int] = None) -> str:
         # classifier only; the verdict (reported line != planted line) does not depend on it
+        us = ushift(first)
         if shift and delta == shift + (1 if (fmt == "r" and kind == "E") else 0):
             return "line:overindented-leading-blank"
+        if us and delta == shift + us + (1 if (fmt == "r" and kind == "E") else 0):
+            return "line:rst-unicode-line-boundary"
         return "line:%s-%s:%+d" % (tag, {"E": "markup-error", "X": "xref", "U": "unknown-field", "P": "bad-param"}[kind], delta)
 
     for line, kind, name in uniq:
@@ -985,7 +1024,11 @@ def oracle_er(ctx: Ctx, inp, fmt: str, doc, exp, uniq, span) -> None:
             want = shift + (1 if fmt == "r" else 0)
             if want and (ln - want) in err_lines:
                 near = ln - want
-            ctx.fail(signature("E", ln - near), {**inp, "object": doc["name"], "reported": ln, "planted_error_lines": err_lines, "problem": ["E", ""]},
+            if not (want and (ln - want) in err_lines):
+                for cand in err_lines:      # else: a planted error line that explains the report through docutils' line structure
+                    if ushift(cand) and ln - cand == shift + ushift(cand) + (1 if fmt == "r" else 0):
+                        near = cand
+            ctx.fail(signature("E", ln - near, near), {**inp, "object": doc["name"], "reported": ln, "planted_error_lines": err_lines, "problem": ["E", ""]},
                      f"{where}: markup error in the block starting on line {near} is reported on line {ln}")
         elif kind in ("X", "P", "U"):
             t = byname.get((kind, name))
@@ -997,13 +1040,29 @@ def oracle_er(ctx: Ctx, inp, fmt: str, doc, exp, uniq, span) -> None:
             if ln == first or (fmt == "r" and kind == "X" and ln == own):
                 continue
             target = own if (fmt == "r" and kind == "X") else first
+            if pc == "S" and ln == text_start and doc.get("owner") in ("module", "class"):
+                ctx.fail("dup:rst-section-title-xref:toc-first-line",
+                         {**inp, "object": doc["name"], "reported": ln, "expected": first, "problem": [kind, name]},
+                         f"{where}: '{name}' in the section title on line {first} is reported a second time, on line {ln} (the docstring's first line), "
+                         f"while the sidebar's table of contents is rendered")
+                continue
+            if pc == "S" and ln == first + 1 + shift + ushift(first):
+                ctx.fail("line:rst-section-title-xref:underline" if not (shift or ushift(first)) else signature(kind, ln - first - 1, first),
+                         {**inp, "object": doc["name"], "reported": ln, "expected": first, "problem": [kind, name]},
+                         f"{where}: '{name}' in the section title on line {first} is reported on line {ln} (the title's underline)")
+                continue
+            if pc == "V" and first < ln <= span[1] + 1:
+                ctx.fail("line:rst-version-directive-arg-xref:after-block",
+                         {**inp, "object": doc["name"], "reported": ln, "expected": first, "problem": [kind, name]},
+                         f"{where}: '{name}' in the argument of the version directive on line {first} is reported on line {ln}, after the directive's block")
+                continue
             if pc == "T" and ln == text_start:      # offset 0: docstring_lineno itself
                 ctx.fail("line:rst-consolidated-classifier-xref:docstring-first-line",
                          {**inp, "object": doc["name"], "reported": ln, "expected": target},
                          f"{where}: cross-reference '{name}' in the classifier of the definition-list entry on line {first} "
                          f"is reported on line {ln}, the first line of the docstring")
                 continue
-            ctx.fail(signature(kind, ln - target), {**inp, "object": doc["name"], "reported": ln, "expected": target, "problem": [kind, name]},
+            ctx.fail(signature(kind, ln - target, first), {**inp, "object": doc["name"], "reported": ln, "expected": target, "problem": [kind, name]},
                      f"{where}: {kind} '{name}' planted in the block starting on line {first} is reported on line {ln}")
         else:
             ctx.fail("unplanted:other", {**inp, "object": doc["name"], "reported": [ln, kind, name]},
